@@ -22,10 +22,38 @@ import (
 // receivers of pointer methods, values of the sync and sync/atomic types, anything the type
 // checker could not type (left alone rather than guessed at), non-addressable values.
 type accessPass struct {
-	fset  *token.FileSet
-	info  *types.Info
-	instr map[types.Object]bool
-	n     int
+	fset    *token.FileSet
+	info    *types.Info
+	instr   map[types.Object]bool
+	pkgOnly bool // hot sequential packages: only memory inside reassigned package variables
+	n       int
+}
+
+// inPkgVar reports whether e lives inside a watched package variable (reached without following
+// a pointer or indexing a slice).
+func (a *accessPass) inPkgVar(e ast.Expr) bool {
+	for {
+		switch n := e.(type) {
+		case *ast.ParenExpr:
+			e = n.X
+		case *ast.SelectorExpr:
+			sel := a.info.Selections[n]
+			if sel == nil || sel.Kind() != types.FieldVal || sel.Indirect() || isPointer(a.typeOf(n.X)) {
+				return false
+			}
+			e = n.X
+		case *ast.IndexExpr:
+			if _, ok := under(a.typeOf(n.X)).(*types.Array); !ok {
+				return false
+			}
+			e = n.X
+		case *ast.Ident:
+			v, ok := a.info.Uses[n].(*types.Var)
+			return ok && !v.IsField() && v.Pkg() != nil && v.Parent() == v.Pkg().Scope() && a.instr[v]
+		default:
+			return false
+		}
+	}
 }
 
 // analyseIdents finds the plain variables worth watching: package variables assigned outside
@@ -274,7 +302,7 @@ func (a *accessPass) private(e ast.Expr) bool {
 
 func (a *accessPass) wrap(e ast.Expr, orig ast.Expr, store bool) ast.Expr {
 	t := a.typeOf(orig)
-	if t == nil || syncType(t) || a.private(orig) {
+	if t == nil || syncType(t) || a.private(orig) || (a.pkgOnly && !a.inPkgVar(orig)) {
 		return e
 	}
 	if b, ok := under(t).(*types.Basic); ok && b.Info()&types.IsUntyped != 0 {
@@ -295,6 +323,9 @@ func (a *accessPass) wrap(e ast.Expr, orig ast.Expr, store bool) ast.Expr {
 }
 
 func (a *accessPass) mapWrap(m ast.Expr, at ast.Node, store bool) ast.Expr {
+	if a.pkgOnly {
+		return m
+	}
 	name := "MR"
 	if store {
 		name = "MW"
@@ -655,8 +686,8 @@ func (a *accessPass) stmt(s ast.Stmt) {
 }
 
 // instrumentAccesses runs the pass over the function bodies of f; returns the number of wrapped accesses.
-func instrumentAccesses(fset *token.FileSet, f *ast.File, info *types.Info, instr map[types.Object]bool) int {
-	a := &accessPass{fset: fset, info: info, instr: instr}
+func instrumentAccesses(fset *token.FileSet, f *ast.File, info *types.Info, instr map[types.Object]bool, pkgOnly bool) int {
+	a := &accessPass{fset: fset, info: info, instr: instr, pkgOnly: pkgOnly}
 	for _, d := range f.Decls {
 		if fd, ok := d.(*ast.FuncDecl); ok && fd.Body != nil {
 			if fd.Recv == nil && fd.Name.Name == "init" {
